@@ -212,3 +212,37 @@ def sidecar_appenders(P):
 
 def sidecar_append_rx(P):
     return '^(' + '|'.join(re.escape(p) for p in sidecar_appenders(P)) + ')$'
+
+
+WS_RESOLVERS = r'^rip_workspace::Workspace::(to_relative|safe_join)$|^rip_workspace::(normalize_rel|hash_bytes|now_ms)$|^rip_workspace::patch::'
+
+
+def workspace_helpers_of(P, root, depth=2):
+    """root plus the private helpers of rip_workspace it delegates to (transitively, `depth` levels), resolvers and the
+    patch parser excluded: the functions among which a rule about `root` has to look for its sites once the body
+    was split up ("snapshot one file", "resolve all inputs")."""
+    out = [root]
+    frontier = [root]
+    for _ in range(depth):
+        nxt = []
+        for p in frontier:
+            f = P.fns.get(p)
+            if f is None:
+                continue
+            for g in P.family(p):
+                for s in g.sites():
+                    c = s.callee or ''
+                    if c.startswith('rip_workspace::') and c in P.fns and '{closure' not in c and not re.search(WS_RESOLVERS, c) and c not in out:
+                        out.append(c)
+                        nxt.append(c)
+        frontier = nxt
+    return out
+
+
+def workspace_body(P, root, depth=2):
+    """`root` with those helpers spliced in (one body, for order-of-effects rules)."""
+    from ..inline import inline_calls
+    key = '_wsb_' + root
+    if not hasattr(P, key):
+        setattr(P, key, inline_calls(P, P.fn(root), lambda body, callee: callee.startswith('rip_workspace::') and not re.search(WS_RESOLVERS, callee), depth=depth))
+    return getattr(P, key)
